@@ -129,6 +129,7 @@ class Ctx:
         self.t0 = time.time()
         self.budget_s = float(shard.get("budget_s", 1e9))
         self.truncated = False
+        self.inconclusive = []
 
     # -- time ---------------------------------------------------------------------------------
     def out_of_time(self):
@@ -168,6 +169,10 @@ class Ctx:
         (set only by a counterfactual classifier), None otherwise."""
         self.nviol += 1
         self.viol_kinds[(kind, key)] += 1
+        dbg = os.environ.get("VERIF_DEBUG_VIOL")
+        if dbg:  # triage aid: one line per violation
+            with open(dbg, "a") as f:
+                f.write(f"{kind}\t{key}\t{str(detail)[:300]}\n")
         kept_same = sum(1 for v in self.violations if v["kind"] == kind and v["key"] == key)
         if kept_same < 2 and len(self.violations) < self.MAX_VIOL_KEPT:
             self.violations.append(
@@ -188,6 +193,7 @@ class Ctx:
             "maxima": self.maxima,
             "exhaustive": self.exhaustive,
             "truncated": self.truncated,
+            "inconclusive": self.inconclusive[:5],
             "wall_s": round(time.time() - self.t0, 3),
         }
 
